@@ -95,7 +95,6 @@ Definition uses_exponent (x : Q) : bool :=
 
 (* ---- lengths ------------------------------------------------------------------------------------------------ *)
 (* units are numbered as the members of LengthType.Units (Gen/ImscTables.v enum_LengthUnits) *)
-Record len := mkLen { l_val : Q ; l_unit : Z }.
 Definition U_em := 0.  Definition U_pct := 1.  Definition U_rh := 2.  Definition U_rw := 3.  Definition U_c := 4.  Definition U_px := 5.
 
 Fixpoint enum_value (tbl : list (list Z * Z * list Z)) (ord : Z) : option text :=
@@ -153,7 +152,6 @@ Definition parse_len (s : text) : option len :=
   end.
 
 (* ---- colours -------------------------------------------------------------------------------------------------- *)
-Definition color := (Z * Z * Z * Z)%type.
 Definition hexd (d : Z) : Z := if d <? 10 then 48 + d else 87 + d.
 (* f"{c:02x}" for 0 <= c < 256 *)
 Definition hex2 (c : Z) : text := [hexd (c / 16); hexd (c mod 16)].
@@ -228,25 +226,6 @@ Definition parse_color (s : text) : option color :=
   end.
 
 (* ---- style values ------------------------------------------------------------------------------------------------ *)
-Inductive sval :=
-  | SColor (c : color)
-  | SEnum (ord : Z)                       (* member number in the enumeration of the property *)
-  | SLen (l : len)
-  | SNormal | SNone                       (* SpecialValues *)
-  | SExtent (w h : len)
-  | SOrigin (x y : len)
-  | SPadding (b e a s : len)
-  | SPosition (he : Z) (ho : len) (ve : Z) (vo : len)
-  | SBool (b : bool)
-  | SInt (n : Z)                          (* a number given as int *)
-  | SFrac (q : Q)                         (* a number given as Fraction (not integral) *)
-  | STextDec (u l o : option bool)
-  | SEmph (style : Z) (c : option color) (pos : Z)
-  | SOutline (c : option color) (th : len)
-  | SShadows (l : list (len * len * option len * option color))
-  | SReserve (pos : Z) (l : option len)
-  | SFonts (fs : list (bool * text)).     (* (generic?, name) *)
-
 Inductive wres := WAttr (s : text) | WSkip | WErr (code : Z).     (* 3 = AttributeError, 4 = TypeError *)
 
 (* str.split(" ") *)
